@@ -607,7 +607,7 @@ class WcsSampler(object):
                 refined_idx2 = np.linspace(coarse_idx2[lo], coarse_idx2[hi], n)
             elif e < 3 * nm:
                 # "bottom" edge, traversed backwards (right-to-left)
-                rel = 3 * nm - (1 + e)
+                rel = 3 * nm - e
                 lo = max(rel - 1, 0)
                 hi = min(rel + 1, nm)
                 n = int(np.ceil(coarse_idx1[hi] - coarse_idx1[lo])) + 1
